@@ -34,7 +34,15 @@ func c03emit(tag *log.Tag, e *c03ev) {
 	ctx := context.WithValue(context.Background(), c03ctxKey{}, e)
 	switch e.level {
 	case 0:
-		log.Info(ctx, tag, log.Msg(e.id), log.String("p", e.payload), log.Int("n", len(e.payload)))
+		switch len(e.payload) % 3 {
+		case 0:
+			log.Info(ctx, tag, log.Msg(e.id), log.String("p", e.payload), log.Int("n", len(e.payload)))
+		case 1:
+			// application-defined levels whose codes lie between the built-in ones (NOTICE=350 next to INFO=300, L998 below MAX)
+			log.Record(ctx, c01byName["NOTICE"].l, tag, 1, log.Msg(e.id), log.String("p", e.payload), log.Int("n", len(e.payload)))
+		default:
+			log.Record(ctx, c01byName["L998"].l, tag, 1, log.Msg(e.id), log.String("p", e.payload), log.Int("n", len(e.payload)))
+		}
 	case 1:
 		log.Warnf(ctx, tag, "%s %s", e.id, e.payload)
 	case 2:
@@ -135,6 +143,7 @@ var c03zones = []*time.Location{time.UTC, time.Local, time.FixedZone("", 5*3600+
 
 func c03Worker(w *W) {
 	registerMonitorPlugins()
+	c01init() // user-registered levels
 	tag := log.RegisterTag("c03tag")
 	console := &slowSink{slow: true}
 	log.Stdout = console
